@@ -111,7 +111,7 @@ def selection_rule(S, i):
 
 class BestEval(Unit):
     name = "besteval.best_eval"
-    props = ("C03", "C02", "C06", "C20", "C09", "C08")
+    props = ("C03", "C02", "C06", "C20", "C09", "C08", "C07")
     fmodel = "ORDER"
     functions = [("cobyqa.problem", "Problem.best_eval")]
     replay = ("contracts.replays", "best_eval")
@@ -172,7 +172,8 @@ class BestEval(Unit):
                  props=["C02", "C03", "C20"])
         S = Spec(c, F, M, tol, pen)
         for nm, t in selection_rule(S, i):
-            c.oblige("C03.best_eval.post." + nm, t, props=["C03"])
+            # the feasible-first tiers also carry C07/C09: "status 1/4 => the returned point is feasible" needs the same <= test
+            c.oblige("C03.best_eval.post." + nm, t, props=["C03", "C07", "C09"] if nm.startswith(("T1", "T2")) else ["C03"])
 
 
 UNITS = [BestEval()]
